@@ -8,7 +8,7 @@ def with_minimal(rng, C):
 
 
 def run(ctx):
-    F.run_family_check(ctx, "C04", 120, 2000, config_hook=with_minimal, mc=[("PipelineSM", "MC_PipelineSM_quick.cfg", "MC_PipelineSM.cfg")])
+    F.run_family_check(ctx, "C04", 240, 2000, config_hook=with_minimal, mc=[("PipelineSM", "MC_PipelineSM_quick.cfg", "MC_PipelineSM.cfg")])
 
 
 replay = F.replay
